@@ -152,11 +152,16 @@ def _position_binding(facts, st, h, effect_blocks, subject_position=None):
     """Anchor: handler must-pass verify_position_authority(_interface)(ctx.accounts.TA, ctx.accounts.S)."""
     pv = prov_of(h)
     msgs = []
+    sites = []
     for bi, t in h.calls():
         p = callee_path(t) or ""
         if p not in ("util::shared::verify_position_authority", "util::shared::verify_position_authority_interface", "util::shared::validate_owner"):
             continue
-        args = [pv.operand(a, bi, len(h.blocks[bi]["s"])) for a in t["a"]]
+        sites.append((bi, p, [pv.operand(a, bi, len(h.blocks[bi]["s"])) for a in t["a"]], None))
+    ip = inplace_owner_check(h)
+    if ip is not None:
+        sites.append((ip[0], "util::shared::validate_owner", [ip[1], ip[2]], ip[3]))
+    for (bi, p, args, inplace) in sites:
         ta, s = _acc_ref(args[0]), _acc_ref(args[1])
         if p.endswith("validate_owner") and not (is_field(args[0], "owner") and ta):
             msgs.append("validate_owner is not applied to <token account>.owner: %s" % sh(args[0], 60))
@@ -180,7 +185,7 @@ def _position_binding(facts, st, h, effect_blocks, subject_position=None):
         if subject_position and okp != subject_position and not st.linked(okp, subject_position):
             msgs.append("checked position `%s` is not the mutated `%s`" % (okp, subject_position))
             continue
-        mp, why = cfg.must_pass_call(h, bi)
+        mp, why = cfg.must_pass_call(h, bi) if inplace is None else (inplace, "the owner / signer tests written in place can be bypassed")
         if not mp:
             msgs.append("verify_position_authority: " + why)
             continue
@@ -191,6 +196,38 @@ def _position_binding(facts, st, h, effect_blocks, subject_position=None):
         return True, "%s(ctx.accounts.%s [mint == %s.position_mint, amount == 1], Signer %s)? dominates %d effect sites" % (
             p.rsplit("::", 1)[-1], ta, okp, s, len(effect_blocks))
     return False, "; ".join(msgs) or "no call to verify_position_authority(_interface)"
+
+
+def inplace_owner_check(h):
+    """validate_owner written in place: `expected != info.key || !info.is_signer => MissingOrInvalidDelegate`:
+    (block of the signer test, expected-owner term, account term, both tests on every success path) or None."""
+    key_at = sig_at = None
+    for at in A.atoms(h):
+        if "MissingOrInvalidDelegate" not in (at.true_codes | at.false_codes) and not at.true_fail and not at.false_fail:
+            continue
+        c = at.cond()
+        if c and c[0] in ("Ne", "Eq") and "MissingOrInvalidDelegate" in (at.true_codes | at.false_codes | _reach_codes(h, at)):
+            for (x, y) in ((c[1], c[2]), (c[2], c[1])):
+                if is_field(strip(y), "key") and is_field(strip(x), "owner"):
+                    key_at = (at, x, strip(y)[1])
+        if c is None and is_field(strip(at.term), "is_signer") and at.false_fail:
+            sig_at = (at, strip(strip(at.term))[1])
+    if key_at and sig_at and strip(key_at[2]) == strip(sig_at[1]):
+        both = not cfg.success_reach(h, 0, cut_blocks=[key_at[0].block]) and \
+            not cfg.success_reach(h, 0, cut_edges={(sig_at[0].block, tg) for tg in sig_at[0].true_targets} | {(key_at[0].block, tg) for tg in (key_at[0].false_targets if key_at[0].cond()[0] == "Ne" else key_at[0].true_targets)})
+        return (sig_at[0].block, key_at[1], key_at[2], both)
+    return None
+
+
+def _reach_codes(fn, at):
+    """Error codes of the failing returns an atom's sides lead to (a short-circuit `||` fails one block further on)."""
+    out = set()
+    for tg in at.true_targets + at.false_targets:
+        if cfg.fail_only(fn, tg):
+            out |= cfg.block_error_codes(fn, tg) or set()
+            for b in cfg.reach(fn, tg):
+                out |= cfg.block_error_codes(fn, b) or set()
+    return out
 
 
 def _bundle_binding(facts, st, h, effect_blocks):
@@ -260,6 +297,10 @@ def R1_effect_requires_authority(run):
                 continue  # bitflags helpers on local values
             recv = pv.operand(t["a"][0], bi, len(h.blocks[bi]["s"]))
             effects.append((p, _acc_ref(recv), bi, t["l"]))
+        # a setter spelled out in the handler (the same stores with the same constants) is that setter's effect
+        for (mpath, mb, recv, _args, ws_) in writes.recognise_mutators(facts, h):
+            if mpath.startswith("state::") and "<impl" not in mpath:
+                effects.append((mpath, _acc_ref(recv), mb, ws_[-1]["line"]))
         for f in st.fields:
             for cexpr in f.values("close"):
                 ty = {"Position": P, "PositionBundle": PB, "TokenBadge": B}.get(f.inner)
@@ -372,6 +413,16 @@ def R1b_no_unlisted_writers(run):
         if fn.trait:  # derives (Clone, Default, BorshDeserialize ...)
             continue
         offenders.setdefault(fn.path, w)
+    # a handler whose direct stores are, group by group, exactly one classified setter written in place is held to that
+    # setter's authority rule by R1 (it sees the recognised setter as an effect)
+    for path in list(offenders):
+        fn = facts.fn(path)
+        rec = writes.recognise_mutators(facts, fn) if fn is not None else []
+        covered = {(w_["block"], w_["stmt"]) for (_m, _b, _r, _a, ws_) in rec for w_ in ws_}
+        mine = [w for w in writes.field_stores(facts) if w["fn"] is fn and w["adt"] in tracked and w["kind"] == "assign"]
+        if rec and all((w["block"], w["stmt"]) in covered for w in mine) and all(m in MUTATORS or m in (W + "::update_rewards_and_liquidity",) for (m, _b, _r, _a, _w) in rec):
+            run.ok("R1b", "direct-store@" + path, detail="writes %s in place (held to that setter's authority rule by R1)" % ", ".join(sorted({m.rsplit("::", 1)[-1] for (m, _b, _r, _a, _w) in rec})))
+            del offenders[path]
     allowed = {
         "instructions::migrate_repurpose_reward_authority_space::handler":
             "permissionless one-shot migration: can only zero two extension segments of a not-yet-migrated legacy pool (checked by R1c)",
@@ -586,7 +637,11 @@ def R3_pinocchio_labelling(run):
         run.check("R3", "is_writable@" + m, ok, "AccountIterator::%s does not fail on !is_writable" % m, loc=fn.loc(), detail="!is_writable => AccountNotMutable")
     # program id labels
     fnp = facts.need_fn(it + "next_program_account")
-    okp = any(at.true_fail != at.false_fail for at in A.atoms(fnp))
+    # every successful return lies behind a key comparison that held (`any(..)` or a loop returning on the first match): with the
+    # holding edges of those comparisons cut, no success is reachable
+    eqs = [at for at in A.atoms(fnp) if mentions(at.term, lambda t: t[0] == "call" and t[1].rsplit("::", 1)[-1] in ("pubkey_eq", "any", "eq", "contains"))]
+    cut = {(at.block, tg) for at in eqs for tg in at.true_targets}
+    okp = bool(eqs) and not cfg.success_reach(fnp, 0, cut_edges=cut)
     run.check("R3", "program-id", okp, "next_program_account does not fail on a non-matching program id", loc=fnp.loc(), detail="!any(pubkey_eq) => InvalidProgramId")
     expect_prog = {"next_program_memo": "MEMO_PROGRAM_ID", "next_program_token": "TOKEN_PROGRAM_ID",
                    "next_program_system": "SYSTEM_PROGRAM_ID"}
